@@ -211,6 +211,28 @@ TABLE.update({
         _LAYOUT_NOTE, "3/C12"),
 })
 
+TABLE.update({
+    "C10": (
+        True, MC,
+        "explicit-state BFS to fix-point over rename / payload / membership "
+        "/ block-move histories on the real objects, fresh-scan oracle",
+        "All histories (fix-point: 11 664 states quick, 26k+ thorough) over "
+        "2 symbols (thorough also 3) with names from {'', 'a'} (thorough + "
+        "'b'), payloads code block / proxy / 0 / None (thorough + data block, "
+        "7), modules M1 / M2 / none: renames, referent= and value= "
+        "assignments, symbol moves by setter and by add / discard / remove / "
+        "pop / clear / update / ^= / &= / -= on both modules' symbol sets, "
+        "moves of the section (hence its blocks) and of the proxy between "
+        "modules and out, block detach/attach, constructors with payload and "
+        "module, save+load. After every transition symbols_named for every "
+        "module and name (plus unused names) and references of every block "
+        "and proxy must equal the scan of the current module's symbols, each "
+        "symbol once; public symbol attributes must equal a per-symbol model.",
+        "Trusted: scan oracle and tuple model. Two or three symbols, two "
+        "modules.",
+        "3/C10"),
+})
+
 PENDING = [
     "C01", "C02", "C03", "C04", "C05", "C06", "C07", "C08", "C09", "C10",
     "C11", "C12", "C13", "C14", "C16", "C17", "C18", "C19",
